@@ -161,6 +161,16 @@ func compressWith(name string, b []byte) []byte {
 	panic("unknown compression " + name)
 }
 
+// decompressBody is decompressWith for un-enveloped bodies: an empty body carries an empty
+// message whatever Content-Encoding says (connect-go, vanguard and gRPC peers all skip
+// decompression of zero bytes), so it is not held against the declared encoding.
+func decompressBody(name string, b []byte) ([]byte, error) {
+	if len(b) == 0 {
+		return b, nil
+	}
+	return decompressWith(name, b)
+}
+
 func decompressWith(name string, b []byte) ([]byte, error) {
 	switch name {
 	case "gzip":
